@@ -376,8 +376,9 @@ class Analysis:
             res["loads"] |= s.loads
             res["stores"] |= s.stores
             res["bumps"] |= s.bumps
-            if name == "__init__":
-                res["resets"] |= s.resets
+            # a plain assignment to a counter anywhere (a re-run constructor
+            # or a setter that "starts over") can bring an old key back
+            res["resets"] |= s.resets
             subs = []
             for callee, cinfo in s.self_calls:
                 subs.append(self.scan(self.cls, callee, info=cinfo))
